@@ -203,7 +203,7 @@ def observe(directory, cfg, files0=None):
         obs['ctr'] = [st['count'], st['size'], st['hits'], st['misses']]
         obs['sizes_ok'] = sizes_ok
         with warnings.catch_warnings():
-            warnings.simplefilter('ignore')
+            warnings.simplefilter('always')
             w1 = c.check()
         kinds = []
         for w in w1:
@@ -221,7 +221,7 @@ def observe(directory, cfg, files0=None):
         except Exception:
             obs['wrote'] = 0
         with warnings.catch_warnings():
-            warnings.simplefilter('ignore')
+            warnings.simplefilter('always')
             c.check(fix=True)
             w2 = c.check()
         obs['clean2'] = 1 if not w2 else 0
@@ -275,6 +275,122 @@ def run_kill(cfg, init_ops, ops, kill_at, tid=1, async_delay=None):
         return {'id': tid, 'init': {'policy': cfg['policy'], 'cull': cfg['cull'], 'limit': cfg['limit'],
                                     'stats': 1 if cfg['stats'] else 0},
                 'initops': init_ops, 'ops': ops, 'kill_at': kill_at, 'points': info.get('n', 0),
+                'kinds': info.get('kinds', []), 'ev': events}
+    finally:
+        envctl.rm(d)
+
+
+# ------------------------------------------------------------------ Deque / Index victims (C07 over C11 / C12 objects)
+def _child_obj(kind, directory, maxlen, ops, kill_at, logfd, countfd):
+    try:
+        import diskcache
+        from .dequedriver import DequeApi, mx
+        from .indexdriver import IndexApi
+        envctl.Clock().install()
+        envctl.SeededUrandom(11).install()
+        lst = KillListener(kill_at)
+        interpose.install(None, directory)
+        vm = ValMap()
+        if kind == 'deque':
+            obj = diskcache.Deque(directory=directory, maxlen=mx(maxlen))
+            api = DequeApi(vm)
+            len(obj)
+        else:
+            obj = diskcache.Index(directory)
+            api = IndexApi(None, vm)
+            len(obj)
+        interpose.set_listener(lst, directory)
+        for op in ops:
+            os.write(logfd, (json.dumps({'ev': 'call', 'op': op['op'], 'a': op['a']}) + '\n').encode())
+            ret = api.call(obj, op['op'], op['a'])
+            os.write(logfd, (json.dumps({'ev': 'ret', 'ret': ret}) + '\n').encode())
+        interpose.set_listener(None)
+        os.write(countfd, json.dumps({'n': lst.count, 'kinds': lst.kinds}).encode())
+    except BaseException:
+        import traceback
+        os.write(logfd, (json.dumps({'ev': 'crash', 'tb': traceback.format_exc()}) + '\n').encode())
+    finally:
+        os._exit(0)
+
+
+def run_kill_obj(kind, init, maxlen, ops, kill_at, tid=1):
+    """kind 'deque' (init: list of model values) or 'index' (init: list of [key id, model value])."""
+    import diskcache
+    from .dequedriver import mx, items_of
+    from .indexdriver import PYKEYS, pairs_of
+    d = envctl.scratch('kobj')
+    vm = ValMap()
+    try:
+        envctl.SeededUrandom(5).install()
+        try:
+            if kind == 'deque':
+                o = diskcache.Deque([vm.to_py(v) for v in init], directory=d, maxlen=mx(maxlen))
+            else:
+                o = diskcache.Index(d)
+                for k, v in init:
+                    o[PYKEYS[k]] = vm.to_py(v)
+            o.cache.close()
+        finally:
+            envctl.SeededUrandom.uninstall()
+        logpath = os.path.join(envctl.scratch_root(), 'olog-%d-%d' % (os.getpid(), tid))
+        logfd = os.open(logpath, os.O_WRONLY | os.O_CREAT | os.O_TRUNC | os.O_APPEND)
+        r, w = os.pipe()
+        pid = os.fork()
+        if pid == 0:
+            os.close(r)
+            _child_obj(kind, d, maxlen, ops, kill_at, logfd, w)
+        os.close(w)
+        _, status = os.waitpid(pid, 0)
+        data = b''
+        while True:
+            chunk = os.read(r, 65536)
+            if not chunk:
+                break
+            data += chunk
+        os.close(r)
+        os.close(logfd)
+        events = [json.loads(l) for l in open(logpath).read().splitlines() if l.strip()]
+        os.unlink(logpath)
+        for e in events:
+            if e.get('ev') == 'crash':
+                raise MachineryError('victim crashed:\n' + e['tb'])
+        info = json.loads(data.decode()) if data else {}
+        if kill_at == 0 and not info:
+            raise MachineryError('counting run died')
+        events.append({'ev': 'killed', 'k': 1 if os.WIFSIGNALED(status) else 0})
+        obs = {'ev': 'obs', 'opened': 0, 'items': [], 'warn': [], 'wrote': 0}
+        try:
+            o = diskcache.Deque(directory=d, maxlen=mx(maxlen)) if kind == 'deque' else diskcache.Index(d)
+            obs['opened'] = 1
+            try:
+                obs['items'] = items_of(o, vm) if kind == 'deque' else pairs_of(o, vm)
+            except Exception as exc:
+                obs['items'] = []
+                obs['unreadable'] = type(exc).__name__
+            with warnings.catch_warnings():
+                warnings.simplefilter('always')
+                ws = o.cache.check()
+            kinds = set()
+            for w_ in ws:
+                m = str(w_.message)
+                kinds.add('unknown-file' if m.startswith('unknown file') else 'empty-dir' if m.startswith('empty directory') else
+                          'file-not-found' if m.startswith('file not found') else 'wrong-size' if m.startswith('wrong file size') else
+                          'count' if 'Settings.count' in m else 'size' if 'Settings.size' in m else 'other')
+            obs['warn'] = sorted(kinds)
+            try:
+                c2 = diskcache.Cache(d, timeout=1)
+                c2.set('__verif_probe__', 1)
+                del c2['__verif_probe__']
+                c2.close()
+                obs['wrote'] = 1
+            except Exception:
+                obs['wrote'] = 0
+            o.cache.close()
+        except Exception as exc:
+            obs['error'] = type(exc).__name__
+        obs.setdefault('unreadable', '')
+        events.append(obs)
+        return {'id': tid, 'kind': kind, 'init': init, 'maxlen': maxlen, 'ops': ops, 'kill_at': kill_at, 'points': info.get('n', 0),
                 'kinds': info.get('kinds', []), 'ev': events}
     finally:
         envctl.rm(d)
